@@ -10,7 +10,7 @@ class Contract:
     def __init__(self, cid, file, func, params=None, returns=None, enc="native", requires=(), ensures=None,
                  raises=None, modifies=(), loops=None, locals=None, lets=None, prop=None, inline=False,
                  trusted=False, fresh_result=True, self_class=None, notes="", bounded=None, ghost=None,
-                 pure=False, old=None, kind="top", calls=None, assume=(), unwind=None, recursive=False, lemmas=()):
+                 pure=False, old=None, kind="top", calls=None, assume=(), unwind=None, recursive=False, lemmas=(), also=()):
         self.cid = cid
         self.file = file
         self.func = func
@@ -38,6 +38,7 @@ class Contract:
         self.assume = list(assume)            # explicitly listed assumptions (reported in evidence)
         self.unwind = unwind
         self.recursive = recursive
+        self.also = list(also)       # further properties whose check runs (and counts) this contract
         self.lemmas = list(lemmas)   # dicts: name, vars{name:type}, induct (var name), stmt
         if cid in CONTRACTS:
             raise KeyError(f"duplicate contract id {cid}")
@@ -74,6 +75,20 @@ def class_field(cls, field):
             return c, CLASSES[c]["fields"][field]
         todo.extend(CLASSES[c]["bases"])
     return None
+
+
+def all_fields(cls):
+    """every modelled field of a class, through its bases"""
+    out, seen, todo = {}, set(), [cls]
+    while todo:
+        c = todo.pop(0)
+        if c in seen or c not in CLASSES:
+            continue
+        seen.add(c)
+        for f, t in CLASSES[c]["fields"].items():
+            out.setdefault(f, t)
+        todo.extend(CLASSES[c]["bases"])
+    return out
 
 
 def find_method_contract(cls, name):
